@@ -762,23 +762,43 @@ class SymKey:
 _MISSING = object()
 
 
+def _key_is_sym(k):
+    if isinstance(k, SymInt): return k.conc() is None
+    if isinstance(k, tuple): return any(_key_is_sym(x) for x in k)
+    return False
+
+
+def _key_conc(k):
+    if isinstance(k, SymInt): return k.conc()
+    if isinstance(k, tuple): return tuple(_key_conc(x) for x in k)
+    return k
+
+
+def _key_eq(a, b):
+    """equality of two dictionary keys (ints, symbolic ints, tuples of those) as bool / SymBool"""
+    if isinstance(a, SymKey): a = a.v
+    if isinstance(b, SymKey): b = b.v
+    if isinstance(a, tuple) or isinstance(b, tuple):
+        if not (isinstance(a, tuple) and isinstance(b, tuple)) or len(a) != len(b): return False
+        return core.band(*[_key_eq(x, y) for x, y in zip(a, b)]) if a else True
+    num = lambda x: isinstance(x, (int, SymInt)) and not isinstance(x, bool)
+    if num(a) and num(b): return core.eq(a, b)
+    if isinstance(a, (SymInt, SymBool)) or isinstance(b, (SymInt, SymBool)): return False if not (isinstance(a, (int, SymInt, SymBool)) and isinstance(b, (int, SymInt, SymBool))) else core.eq(lift(a), lift(b))
+    return a == b
+
+
 def _dict_find(d, k):
     """the key object of dictionary d that equals k on this path (forks on equality), or _MISSING"""
-    ksym = isinstance(k, SymInt) and k.conc() is None
-    if isinstance(k, SymInt) and not ksym: k = k.conc()
+    ksym = _key_is_sym(k)
     if not ksym:
+        k = _key_conc(k)
         try:
             if dict.__contains__(d, k): return k
         except TypeError:
             raise Unsupported('unhashable dictionary key')
-    if not ksym and not isinstance(k, int): 
-        return _MISSING            # a non-integer key never equals a symbolic integer key
     for kk in list(dict.keys(d)):
-        if isinstance(kk, SymKey):
-            c = core.eq(kk.v, k)
-        elif ksym and isinstance(kk, int) and not isinstance(kk, bool):
-            c = core.eq(k, kk)
-        else: continue
+        if not isinstance(kk, SymKey) and not ksym: continue        # two concrete keys: the hash lookup above decided
+        c = _key_eq(kk, k)
         if c is True or (c is not False and bool(c)): return kk
     return _MISSING
 
@@ -791,18 +811,22 @@ def dict_get(d, k, default=None):
 def dict_set(d, k, v):
     kk = _dict_find(d, k)
     if kk is _MISSING:
-        kk = SymKey(k) if (isinstance(k, SymInt) and k.conc() is None) else (k.conc() if isinstance(k, SymInt) else k)
+        kk = SymKey(k) if _key_is_sym(k) else _key_conc(k)
     dict.__setitem__(d, kk, v)
 
 
+def _dict_sym(o, i):
+    return isinstance(i, SymInt) or (isinstance(i, tuple) and any(isinstance(x, SymInt) for x in i)) or any(isinstance(kk, SymKey) for kk in o)
+
+
 def sym_setitem(o, i, v):
-    if type(o) is dict and (isinstance(i, SymInt) or any(isinstance(kk, SymKey) for kk in o)):
+    if type(o) is dict and _dict_sym(o, i):
         return dict_set(o, i, v)
     o[i] = v
 
 
 def sym_getitem(o, i):
-    if type(o) is dict and (isinstance(i, SymInt) or any(isinstance(kk, SymKey) for kk in o)):
+    if type(o) is dict and _dict_sym(o, i):
         kk = _dict_find(o, i)
         if kk is _MISSING: raise KeyError(i)
         return dict.__getitem__(o, kk)
@@ -908,7 +932,7 @@ class _Tx(ast.NodeTransformer):
 
 def sym_in(x, c):
     """x in c  as ONE condition (instead of one fork per element)"""
-    if type(c) is dict and (isinstance(x, SymInt) or any(isinstance(kk, SymKey) for kk in c)):
+    if type(c) is dict and _dict_sym(c, x):
         return _dict_find(c, x) is not _MISSING
     if isinstance(x, (SymInt, SymBool)):
         x = lift(x)
